@@ -14,7 +14,7 @@ pub const DEF: PropDef = PropDef {
     run,
     replay,
     level: "exploration",
-    rule: "(1) the complete product of valid components: 38 patterns x every ordered duplicate-free modifier sequence of length <= 2 (thorough: <= 3) over {psk0..psk9, fallback} x {25519, 448, P256} x 3 ciphers x 4 hashes, enumerated exhaustively; (2) EVERY single-edit mutation (delete, duplicate, case flip, replace by / insert each character of an alphabet of name characters plus '_' '+' space NUL and non-ASCII) at every position of a sample of valid names; (2a) token-level edits of valid names (tokens '_', '+', 'psk', digit runs, letter runs: each duplicated, deleted, swapped with its neighbour, replaced by / preceded by every token of a 34-word vocabulary); (2a') every Unicode code point up to U+FFFF that is alphanumeric / numeric / white space (and a stride of the others; thorough: all) placed inside a psk index, a pattern name and primitive names; (2b) duplicate-free modifier lists of EVERY length 1..=257 (valid names from ~30 to ~1700 bytes, crossing 255/256/512/1024) and the same lists with one duplicate / out-of-range index / empty element, every ordered pair over psk0..psk257+fallback, two random edits; (3) random strings from a grammar-aware strategy and arbitrary Unicode; the hfs build (thorough) adds the dh+kem field and the hfs<=>kem rule. Oracle: an independent recogniser written from the statement (exactly 5 '_'-separated fields, 'Noise', longest-prefix pattern, '+'-separated non-empty duplicate-free modifiers fallback | psk<decimal u8> (| hfs), documented primitive names): parse is Ok iff the recogniser accepts; on Ok pattern, modifier list in order, dh, cipher, hash, base equal the recogniser's components and `name` is the input verbatim; on rejection the error is Error::Pattern(_). Decimal forms the statement does not settle (leading zeros, e.g. psk01) are counted and not judged. Non-trivial = a valid name with at least one modifier, or an invalid string within one edit of a valid name; distinct by string",
+    rule: "(1) the complete product of valid components: 38 patterns x every ordered duplicate-free modifier sequence of length <= 2 (thorough: <= 3) over {psk0..psk9, fallback} x {25519, 448, P256} x 3 ciphers x 4 hashes, enumerated exhaustively; (2) EVERY single-edit mutation (delete, duplicate, case flip, replace by / insert each character of an alphabet of name characters plus '_' '+' space NUL and non-ASCII) at every position of a sample of valid names; (2a) token-level edits of valid names (tokens '_', '+', 'psk', digit runs, letter runs: each duplicated, deleted, swapped with its neighbour, replaced by / preceded by every token of a 34-word vocabulary); (2a') every Unicode code point up to U+FFFF that is alphanumeric / numeric / white space (and a stride of the others; thorough: all) placed inside a psk index, a pattern name and primitive names; (2b) duplicate-free modifier lists of EVERY length 1..=257 (valid names from ~30 to ~1700 bytes, crossing 255/256/512/1024) and the same lists with one duplicate / out-of-range index / empty element, every ordered pair over psk0..psk257+fallback, two random edits; (3) random strings from a grammar-aware strategy and arbitrary Unicode; the hfs build (thorough) adds the dh+kem field and the hfs<=>kem rule. Oracle: an independent recogniser written from the statement (exactly 5 '_'-separated fields, 'Noise', longest-prefix pattern, '+'-separated non-empty duplicate-free modifiers fallback | psk<decimal u8> (| hfs), documented primitive names): parse is Ok iff the recogniser accepts; on Ok pattern, modifier list in order, dh, cipher, hash, base equal the recogniser's components and `name` is the input verbatim; on rejection the error is Error::Pattern(_). Decimal forms the statement does not settle (leading zeros, e.g. psk01) are not judged as to acceptance, but when accepted the name must still be preserved verbatim. Non-trivial = a valid name with at least one modifier, or an invalid string within one edit of a valid name; distinct by string",
     technique: "differential testing of the parser against a reference recogniser: exhaustive product enumeration + exhaustive single-edit mutation + proptest strings (+ libFuzzer target name_parse in the thorough tier)",
     assumptions: &["psk indices with leading zeros (psk01) and a leading '+' sign are outside what the statement settles; they are skipped"],
     panic_is_violation: false,
@@ -196,6 +196,12 @@ pub fn judge(s: &str, acc: &mut Acc, origin: u8) -> CaseResult {
     let got = s.parse::<NoiseParams>();
     match recognise(s, hfs_build) {
         Verdict::Unspecified => {
+            // whether such a name is accepted is not judged - but IF it is accepted, the parsed
+            // value must still carry the string verbatim (it is what gets hashed)
+            if let Ok(p) = &got {
+                ensure!(p.name == s, "'{}': accepted, but the parsed value does not preserve the name verbatim: '{}'", s.escape_debug(), p.name.escape_debug());
+                acc.label("unspecified_decimal_form:accepted_name_verbatim");
+            }
             acc.skip("decimal form of a psk index the statement does not settle (leading zeros)");
         },
         Verdict::Accept(want) => {
